@@ -4,6 +4,7 @@ use std::io::Write;
 
 use rand::{rngs::StdRng, Rng, SeedableRng};
 use serde_json::json;
+use stun_types::attribute::{AttributeType, RawAttribute};
 use stun_types::message::*;
 
 pub fn class_name(c: MessageClass) -> &'static str {
@@ -63,7 +64,19 @@ pub fn main_table(args: &[String]) {
             t.write_into(&mut w);
             let built = Message::builder(t, TransactionId::from(5)).build();
             let via_parser = Message::from_bytes(&built).ok().map(|p| (p.class(), p.method(), p.get_type().class(), p.get_type().method()));
-            let f = if bytes == w && built[..2] == w && via_parser == Some((c, m, c, m)) { u16::from_be_bytes(w) as u32 } else { 1 << 20 };
+            // the type field is written independently of what follows: also with bodies beyond the 16-bit length
+            let mut big_ok = true;
+            if m % 512 == 2 || m == 0xffe {
+                let blob = vec![7u8; 40000];
+                let mut bb = Message::builder(t, TransactionId::from(5));
+                bb.add_raw_attribute(RawAttribute::new(AttributeType::new(0x7f31), &blob)).unwrap();
+                bb.add_raw_attribute(RawAttribute::new(AttributeType::new(0x7f32), &blob)).unwrap();
+                bb.add_raw_attribute(RawAttribute::new(AttributeType::new(0x7f33), &blob)).unwrap();
+                bb.add_raw_attribute(RawAttribute::new(AttributeType::new(0x7f34), &blob)).unwrap();
+                let out = bb.build();
+                big_ok = out[..2] == w && out[4..8] == [0x21, 0x12, 0xa4, 0x42];
+            }
+            let f = if bytes == w && built[..2] == w && big_ok && via_parser == Some((c, m, c, m)) { u16::from_be_bytes(w) as u32 } else { 1 << 20 };
             writeln!(out, "{}", json!({"k": "enc", "class": class_name(c), "method": m, "f": f, "bytes": bytes})).unwrap();
         }
     }
@@ -81,12 +94,15 @@ pub fn main_table(args: &[String]) {
         let tid = TransactionId::from(w);
         let back: u128 = tid.into();
         let hdr = Message::builder(MessageType::from_class_method(MessageClass::Request, BINDING), tid).build();
-        let parsed: u128 = Message::from_bytes(&hdr).map(|m| m.transaction_id().into()).unwrap_or(u128::MAX);
-        let hparsed: u128 = MessageHeader::from_bytes(&hdr).map(|m| m.transaction_id().into()).unwrap_or(u128::MAX);
-        let p = if parsed == hparsed { parsed } else { u128::MAX };
+        // (a failure must not look like any id: an empty byte string, which no 96-bit id equals)
+        let parsed: Option<u128> = Message::from_bytes(&hdr).ok().map(|m| m.transaction_id().into());
+        let hparsed: Option<u128> = MessageHeader::from_bytes(&hdr).ok().map(|m| m.transaction_id().into());
+        let p: Vec<u8> = match (parsed, hparsed) {
+            (Some(a), Some(b)) if a == b && a >> 96 == 0 => a.to_be_bytes()[4..].to_vec(),
+            _ => vec![],
+        };
         writeln!(out, "{}", json!({"k": "tid", "wide": w.to_be_bytes().to_vec(), "hdr": hdr,
-            "back": back.to_be_bytes()[4..].to_vec(), "parsed": p.to_be_bytes()[4..].to_vec(),
-            "top_zero": back >> 96 == 0 && p >> 96 == 0})).unwrap();
+            "back": back.to_be_bytes()[4..].to_vec(), "parsed": p, "top_zero": back >> 96 == 0})).unwrap();
     }
     for _ in 0..10000 {
         let w: u128 = TransactionId::generate().into();
